@@ -97,6 +97,21 @@ def extra_scenarios(tier):
             yield {"net": "N2", "sessions": ss, "sched": opt, "period": 5, "two_phase": 4, "edit": 9.7}
 
 
+def inc_scenarios(tier, nets=("N2", "N5")):
+    """round robin with other continuous increments than 1 A: one that divides the EVSE limits (0.5) and one that does
+    not (2.5; the top of the grid is then below the limit)"""
+    thorough = tier == "thorough"
+    for netname in nets:
+        stations = list(S.NETS[netname]["stations"])
+        for ss in S.session_subsets(_pool(stations, (0, 1), (3,)), 1, 2):
+            for j, s in enumerate(ss):
+                s["ed"] = s["d"] + (1, 2, 4)[j % 3]
+            for inc in (0.5, 2.5):
+                for sort in (SORTS if thorough else ("fcfs", "llf")):
+                    for est in ((False, True) if thorough else (False,)):
+                        yield {"net": netname, "sessions": ss, "sched": {"kind": "rr", "sort": sort, "est": est, "unint": False, "inc": inc}, "period": 5}
+
+
 class Capture:
     """on_call/on_return pair recording, per invocation, the true state and the output"""
 
